@@ -39,16 +39,18 @@ Definition fasta_parser : M (list byte * list byte) :=
   pMap (pSeq3 (pByte 62) pLine (pUntilP (pAny [pByte 62 ;;; ret tt; pEnd])))
        (fun '(_, desc, body) => Ok (desc, fasta_body_data body)).
 
-(* Scanner with a fixed parser: records until the first error; the error is
-   reported unless it unwraps to io.EOF *)
+(* Scanner with a fixed parser: stops cleanly when only blanks remain; any
+   parser error, the input running out inside a record included, is reported *)
 Fixpoint scan_loop {A} (fuel : nat) (p : M A) (acc : list A) : M (list A * bool) :=
   match fuel with
   | O => nofuel
   | S f =>
+    e <-- at_end ;;;
+    if e then ret (rev acc, true) else
     r <-- try p ;;;
     match r with
     | (Some a, _) => scan_loop f p (a :: acc)
-    | (None, k) => ret (rev acc, match k with EEof => true | _ => false end)
+    | (None, _) => ret (rev acc, false)
     end
   end.
 
